@@ -672,3 +672,181 @@ func c01RootKey(rc *RuleCtx) {
 		})
 	}
 }
+
+func init() {
+	register(&Rule{ID: "C07.walkerr", Floor: 15,
+		Text: "the path walk of MemFS returns a nil directory when the volume of the path does not exist: every use of the walk's directory result as an object (field access, lock, method call) is reached only on paths that established it is there - the walk's status compared with 'found', a non-nil child, the iterator at its last part (a fresh iterator is not: an absolute path is longer than its volume name), or an explicit nil test",
+		Run:  c07WalkErr})
+}
+
+func c07WalkErr(rc *RuleCtx) {
+	for _, f := range rc.C.srcFuncs("memfs") {
+		var walks []*ssa.Call
+		eachCall(f, func(ci ssa.CallInstruction) {
+			if c, ok := ci.(*ssa.Call); ok {
+				if fn := calleeFunc(c); fn != nil && fn.Name() == "searchNode" {
+					walks = append(walks, c)
+				}
+			}
+		})
+		for wi, w := range walks {
+			var pe, ce, ee *ssa.Extract
+			for _, u := range referrersOf(w) {
+				if e, ok := u.(*ssa.Extract); ok {
+					switch e.Index {
+					case 0:
+						pe = e
+					case 1:
+						ce = e
+					case 3:
+						ee = e
+					}
+				}
+			}
+			if pe == nil {
+				continue
+			}
+			// values that carry the directory result: the extract, and cells it is stored into
+			isParent := func(v ssa.Value) bool {
+				for _, rv := range resolve(v) {
+					if strip(rv) == ssa.Value(pe) {
+						return true
+					}
+				}
+				return strip(v) == ssa.Value(pe)
+			}
+			var evidence func(facts []Fact) bool
+			established := func(at ssa.Instruction) bool {
+				if evidence(factsAt(at.Block())) {
+					return true
+				}
+				// disjunctive guards: decide on every acyclic path to the use
+				paths, complete := pathsTo(f, at, 3000)
+				if !complete || len(paths) == 0 {
+					return false
+				}
+				for _, p := range paths {
+					if !feasiblePath(p) {
+						continue
+					}
+					if !evidence(p) {
+						return false
+					}
+				}
+				return true
+			}
+			evidence = func(facts []Fact) bool {
+				for _, fa := range facts {
+					v, truth := normCond(fa.Cond, fa.Truth)
+					switch x := v.(type) {
+					case *ssa.BinOp:
+						if x.Op != token.EQL && x.Op != token.NEQ {
+							continue
+						}
+						eq := (x.Op == token.EQL) == truth
+						for _, pair := range [][2]ssa.Value{{x.X, x.Y}, {x.Y, x.X}} {
+							a, b := pair[0], pair[1]
+							// parent / child compared with nil
+							if isNilConst(b) && !eq {
+								if isParent(a) {
+									return true
+								}
+								if ce != nil && strip(resolve1(a)) == ssa.Value(ce) {
+									return true
+								}
+							}
+							// status compared with the 'found' marker (err.FileExists)
+							if ee != nil && eq && strip(resolve1(a)) == ssa.Value(ee) {
+								if ld, ok := strip(resolve1(b)).(*ssa.UnOp); ok && ld.Op == token.MUL {
+									if fad, ok := ld.X.(*ssa.FieldAddr); ok && fieldName(fad.X.Type(), fad.Field) == "FileExists" {
+										return true
+									}
+								}
+							}
+						}
+					case *ssa.Call:
+						// pi.IsLast() on the iterator of this walk: true only once the walk advanced to the last part
+						// (lemma: an absolute path is longer than its volume name, so a fresh iterator is not at its
+						// last part; the nil directory is returned before the first Next())
+						if fn := calleeFunc(x); fn != nil && fn.Name() == "IsLast" && truth {
+							if r := callRecv(x); r != nil {
+								if e, ok := strip(resolve1(r)).(*ssa.Extract); ok && e.Tuple == ssa.Value(w) && e.Index == 2 {
+									return true
+								}
+							}
+						}
+					case *ssa.Extract:
+						// comma-ok type assertion on the child
+						if ta, ok := x.Tuple.(*ssa.TypeAssert); ok && truth && x.Index == 1 && ce != nil && strip(resolve1(ta.X)) == ssa.Value(ce) {
+							return true
+						}
+					}
+				}
+				return false
+			}
+			n := 0
+			seenSite := map[ssa.Instruction]bool{}
+			eachInstr(f, func(in ssa.Instruction) {
+				var used ssa.Value
+				switch x := in.(type) {
+				case *ssa.FieldAddr:
+					used = x.X
+				case ssa.CallInstruction:
+					if r := callRecv(x); r != nil && !x.Common().IsInvoke() {
+						used = r
+					}
+				}
+				if used == nil || !isParent(used) || seenSite[in] {
+					return
+				}
+				// only the first use in each block matters
+				seenSite[in] = true
+				n++
+				cons := fmt.Sprintf("%s walk#%d directory use#%d", funcName(f), wi+1, n)
+				if established(in) {
+					rc.good(cons, in.Pos(), "reached only after the walk's status / child / directory was tested")
+				} else if !instrReaches(w, in) {
+					rc.good(cons, in.Pos(), "not reachable from this walk")
+				} else {
+					rc.bad(cons, in.Pos(), "the directory returned by the walk is used without any test that the walk found one: for a path on a volume that does not exist it is nil and the call panics")
+				}
+			})
+		}
+	}
+}
+
+func init() {
+	register(&Rule{ID: "C17.volroot", Floor: 6, Also: []string{"C07"},
+		Text: "a volume name denotes the root directory of the volume: it is used as a key of the volumes map or compared, never handed to a path-taking call that refuses (or used to lock twice) a root directory - Remove, RemoveAll, Rename",
+		Run:  c17VolRoot})
+}
+
+func c17VolRoot(rc *RuleCtx) {
+	refuses := map[string]bool{"Remove": true, "RemoveAll": true, "Rename": true}
+	for _, f := range rc.C.srcFuncs("memfs") {
+		n := 0
+		eachCall(f, func(ci ssa.CallInstruction) {
+			c, ok := ci.(*ssa.Call)
+			if !ok {
+				return
+			}
+			if fn := calleeFunc(c); fn == nil || fn.Name() != "VolumeName" {
+				return
+			}
+			for _, u := range referrersOf(c) {
+				if _, isDbg := u.(*ssa.DebugRef); isDbg {
+					continue
+				}
+				n++
+				cons := fmt.Sprintf("%s volume-name use#%d", funcName(f), n)
+				if uc, isCall := u.(ssa.CallInstruction); isCall {
+					if fn := calleeFunc(uc); fn != nil && refuses[fn.Name()] && recvNamed(fn) != nil && recvNamed(fn).Obj().Name() == "MemFS" {
+						rc.bad(cons, u.Pos(), "the volume name is passed to "+fn.Name()+", which refuses the root directory of a volume: the call can never succeed (VolumeDelete could not delete a volume)")
+						continue
+					}
+				}
+				rc.good(cons, u.Pos(), "map key, comparison or a call that accepts a root")
+			}
+		})
+	}
+}
